@@ -8,7 +8,9 @@ CLASSES = {"ends"}
 
 def run(ctx):
     cov, viol = E.run_engine(ctx, "c01", ["plain"], 240, 6000, CLASSES)
-    return {"coverage": cov, "violations": viol}
+    fcov, fviol = E.fold_sweep(ctx)
+    cov["fold_sweep"] = fcov
+    return {"coverage": cov, "violations": viol + fviol}
 
 
 def search(ctx):
